@@ -79,3 +79,8 @@ add("C08", "exploration",
     "ground-truth and uncached-client equivalence per call + fetch counting from the node's request log + announced-pair membership for Latest; sequential and concurrent request mixes with injected fetch failures; poller at 2 ms and 1 h",
     "Sequences and concurrent mixes (2–12 goroutines) of Get over few keys (same/overlapping ranges, different filters on shared segments, 14 call shapes, max-reads 1..6) with faults injected into fetches, and Latest under head growth, repeats, regressions and poller failures: every result equals the chain and what an uncached client returns, every filter-matching log is present exactly once, a failed fetch is never served, reads between two source fetches never exceed max-reads (relaxed by measured in-flight calls when concurrent), every reported head is an announced (number, hash) pair.",
     "Trusted: simnode request log as the record of what the source was asked and what it announced. Minimum observations (cache hits, evictions by both rules, poller resets) are enforced.", "DESIGN.md §7 C08")
+
+add("C18", "exploration",
+    "Go race detector (-race build of harness + shovel) over free-running production-wired tasks: real goroutine concurrency, head poller at 2 ms with injected failures, delays at both wire boundaries, head growth and reorgs in flight; reports de-duplicated by innermost shovel frame pair",
+    "Family A: one task with concurrency 2..8; family B: 2–4 tasks on one source client with overlapping ranges and different data plans so cached segments are shared while logs/receipts/traces are attached. Runner goroutines call Converge until every pair reaches a head that keeps moving; any race report whose two stacks both hold a shovel frame is a violation. Minimum observations (Converge executions, in-flight requests >= 2, poller requests/failures, reorgs) are enforced.",
+    "The race detector sees only interleavings that occurred; a clean run is not race freedom. Trusted: Go race runtime; the harness's own shared state is mutex/atomic-protected (a report without two shovel stacks is inconclusive).", "DESIGN.md §7 C18")
